@@ -1995,7 +1995,8 @@ package ecs
 //@   lockfast isLocked(w)
 //@   panics_if count < 1
 //@   panics_if target.id != 0 && !entAlive(w, target)
-//@   ensures arch != nil && start == old(arch.len)
+//@   modifies *(&w.entityPool), w.entityPool.entities[ALL], w.entities, w.entities[ALL], *(&w.targetEntities), w.targetEntities.data[ALL], all(archetype.len), all(archetype.cap), all(archetypeAccess.entityPointer), all(layout.pointer)
+//@   ensures arch != nil && start == old(arch.len) && validID(arch.archetypeAccess.RelationComponent.id)
 //@   ensures[target] len(comps) > 0 && arch.archetypeAccess.HasRelationComponent ==> arch.archetypeAccess.RelationTarget == target
 //@   ensures[relation] hasTarget ==> arch.node.HasRelation && arch.node.Relation.id == targetID.id
 
@@ -2008,3 +2009,25 @@ package ecs
 //@   on_panic lockSame(&q.world.locks)
 //@   ensures qLockReleased(q) && q.archIndex == -2 && q.nodeIndex == -2
 //@   modifies q.nodeIndex, q.archIndex, q.world.locks.locks.bits, *(&q.world.locks.bitPool)
+
+// newEntities (C11, "batch operations emit the same events as the equivalent single operations"): after the batch
+// creation the listener is notified exactly `count` times iff the rule selects the creation event NewEntity would emit
+// (same type bits, same Added set, same relation), never otherwise; each event carries the entity of one new row
+// (row start+i in the i-th call; the last one is recorded) and is delivered with the world unlocked.
+//@ func World.newEntities(w, count, targetID, hasTarget, target, comps) (arch, start)
+//@   props C11 C08
+//@   requires lockInv(&w.locks) && regInv(&w.registry) && worldIdxInv(w) && validID(targetID.id) && count < 500000000 && len(w.entities) < 500000000 && w.config.CapacityIncrement < 1000000000
+//@   requires target.id != 0 ==> int(target.id) < len(w.entityPool.entities)
+//@   requires validID(pgArch(&w.archetypes, 0).archetypeAccess.RelationComponent.id) && pgArch(&w.archetypes, 0).node != nil && !pgArch(&w.archetypes, 0).archetypeAccess.HasRelationComponent
+//@   flag nosafe may_panic noframe
+//@   lockfast isLocked(w)
+//@   ensures arch != nil && !isLocked(w) && w.listener == old(w.listener)
+//@   ensures[count] w.listener != nil && newSelected(w, arch, len(comps)) ==> notifyCount[w.listener.val] == old(notifyCount[w.listener.val]) + int(uint32(count)) && int(uint32(count)) == count
+//@   ensures[nocount] w.listener != nil && !newSelected(w, arch, len(comps)) ==> notifyCount[w.listener.val] == old(notifyCount[w.listener.val])
+//@   ensures[event] w.listener != nil && newSelected(w, arch, len(comps)) ==>
+//@      notifyLast[w.listener.val] == evtId(mk(EntityEvent, nil, exchNewRel(arch), comps, nil, arch.archetypeAccess.Mask, zeroMaskV(), entAt(&arch.archetypeAccess, start + uint32(count) - 1), mk(Entity, 0, 0), newBits(arch, len(comps))))
+//@   ensures[silent] w.listener == nil ==> (forall l ref :: {notifyCount[l]} notifyCount[l] == old(notifyCount[l]))
+//@   loop #1
+//@   inv i <= cnt && cnt == uint32(count) && !isLocked(w) && w.listener == old(w.listener) && lockInv(&w.locks) && newSelected(w, arch, len(comps))
+//@   inv notifyCount[w.listener.val] == old(notifyCount[w.listener.val]) + int(i)
+//@   inv i > 0 ==> notifyLast[w.listener.val] == evtId(mk(EntityEvent, nil, exchNewRel(arch), comps, nil, arch.archetypeAccess.Mask, zeroMaskV(), entAt(&arch.archetypeAccess, startIdx + i - 1), mk(Entity, 0, 0), newBits(arch, len(comps))))
